@@ -252,7 +252,7 @@ def db_case(rng):
 def enum_case(rng):
     vals = []
     for _ in range(rng.randint(1, 3)):
-        s = rand_string(rng, 6)
+        s = rand_string(rng, 6) if rng.random() < 0.6 else rng.choice(['two  spaces', ' lead', 'trail  ', 'a   b', "it''s  ok", '  '])
         if s and s not in vals:
             vals.append(s)
     if not vals:
@@ -297,6 +297,10 @@ def corpus():
         {'kind': 'value', 'v': vs("\\'")},
         {'kind': 'db', 'xs': [R.cps("x'); DELETE FROM %s; --" % TABLE), R.cps("\\")]},
         {'kind': 'db', 'xs': [R.cps("a\x00b")]},
+        # seeded scenario: a connection with debug on must execute the statement it rendered (UPDATE, DELETE, DDL)
+        {'kind': 'db', 'conn': 'debug', 'xs': [R.cps('keep  me'), R.cps('line one\nline two')]},
+        {'kind': 'db', 'conn': 'debug_txn', 'xs': [R.cps('a\t\tb'), R.cps(' x ')]},
+        {'kind': 'enum', 'conn': 'debug', 'values': [R.cps('plain'), R.cps('two  spaces')], 'other': R.cps('two spaces')},
         # seeded scenario: a LIKE filter rendered more than once (count() then iteration; logging before use)
         {'kind': 'db', 'xs': [R.cps('100%'), R.cps('100 percent'), R.cps('snake_case'), R.cps('C:\\temp')]},
         {'kind': 'like', 'd': 'sqlite', 'helper': 'startswith', 'x': R.cps('50%_\\')},
@@ -349,23 +353,49 @@ def search_cases(rng, tier):
 _ENV = {}
 
 
+class _Sink(object):
+    """debug writer that swallows the output and remembers the last statements handed to cursor.execute"""
+    def __init__(self):
+        self.executed = []
+
+    def write(self, msg):
+        if '/QueryR  :  ' in msg or '/QueryIns:  ' in msg:
+            self.executed.append(msg.split(':  ', 1)[1])
+            del self.executed[:-20]
+
+
+VARIANTS = ['plain', 'debug', 'debug_txn']
+
+
+def _variant(name):
+    """connection options that must not matter: debug / debugOutput on, work done inside a Transaction"""
+    from sqlobject import SQLObject, StringCol, IntCol, connectionForURI
+    # connectionForURI caches by URI text: the two debug variants must not share one connection object
+    uri = 'sqlite:/:memory:' + {'plain': '', 'debug': '?debug=1&debugOutput=1', 'debug_txn': '?debugOutput=1&debug=1'}[name]
+    conn = connectionForURI(uri)
+    sink = None
+    if name != 'plain':
+        sink = _Sink()
+        conn.debugWriter = sink
+    use = conn.transaction() if name == 'debug_txn' else conn
+    cls = type('VerifC02Row' + name.title().replace('_', ''), (SQLObject,),
+               {'_connection': use, 's': StringCol(default=None), 'n': IntCol(default=None),
+                's2': StringCol(default=None), '__module__': __name__})
+    cls.createTable()
+    raw = use._connection if name == 'debug_txn' else conn.getConnection()
+    # the sentinel row goes in through the driver's parameter binding, not through the code under test
+    raw.cursor().execute('INSERT INTO %s (s, n, s2) VALUES (?, ?, ?)' % cls.sqlmeta.table, ('sentinel', 424242, "keep'me"))
+    if name == 'debug_txn':
+        use.commit()
+    return dict(conn=use, T=cls, raw=raw, sink=sink, name=name, txn=(name == 'debug_txn'))
+
+
 def _env():
     if _ENV:
         return _ENV
-    import sqlobject
-    from sqlobject import SQLObject, StringCol, IntCol, connectionForURI
-    conn = connectionForURI('sqlite:/:memory:')
-
-    class VerifC02Row(SQLObject):
-        _connection = conn
-        s = StringCol(default=None)
-        n = IntCol(default=None)
-        s2 = StringCol(default=None)
-    VerifC02Row.createTable()
-    raw = conn.getConnection()
-    # the sentinel row goes in through the driver's parameter binding, not through the code under test
-    raw.cursor().execute('INSERT INTO %s (s, n, s2) VALUES (?, ?, ?)' % VerifC02Row.sqlmeta.table, ('sentinel', 424242, "keep'me"))
-    _ENV.update(conn=conn, T=VerifC02Row, raw=raw, enum_n=[0])
+    v = {n: _variant(n) for n in VARIANTS}
+    _ENV.update(v['plain'])
+    _ENV.update(variants=v, enum_n=[0])
     return _ENV
 
 
@@ -522,9 +552,11 @@ def _rerender(mk, d):
     return {'text': R.cps(text), 'again': again, 'fresh_other': R.cps(_render(mk(), other))}
 
 
-def _db(env, c):
+def _db(env0, c, ci=0):
     from sqlobject.sqlbuilder import IN
-    T, raw = env['T'], env['raw']
+    from sqlobject.dbconnection import DBAPI
+    env = env0['variants'][c.get('conn') or VARIANTS[ci % len(VARIANTS)]]
+    T, raw, sink = env['T'], env['raw'], env['sink']
     tbl = T.sqlmeta.table
     xs = [R.from_cps(x) for x in c['xs']]
     cur = raw.cursor()
@@ -532,7 +564,7 @@ def _db(env, c):
     def dump():
         cur.execute('SELECT id, s, n, s2 FROM %s ORDER BY id' % tbl)
         return [list(r) for r in cur.fetchall()]
-    o = {'steps': []}
+    o = {'steps': [], 'variant': env['name']}
     before = dump()
     ids = []
     for i, x in enumerate(xs):
@@ -595,8 +627,40 @@ def _db(env, c):
             cur.execute('SELECT s2 FROM %s WHERE id = ?' % tbl, (ids[0],))
             got = cur.fetchone()
             o['update'] = ['ok', None if got[0] is None else R.cps(got[0]), R.cps(xs[-1])]
+            if sink is not None:
+                # the statement handed to the driver must be the statement that was rendered
+                class _O(object):
+                    pass
+                so = _O()
+                so.sqlmeta = _O()
+                so.sqlmeta.table, so.sqlmeta.idName, so.id = tbl, T.sqlmeta.idName, ids[0]
+                want = []
+                f = _fake('sqlite')
+                f.query = want.append
+                DBAPI._SO_update(f, so, [('s2', xs[-1])])
+                ex = [t for t in sink.executed if t.startswith('UPDATE')]
+                o['update_text'] = [R.cps(want[0]), R.cps(ex[-1]) if ex else None]
         except Exception as e:
             o['update'] = ['exc', _exc(e), R.cps(xs[-1])]
+    # deleteBy(s=x): exactly the rows holding x go (a near miss that differs only in its whitespace stays)
+    if ids and not any(cp == 0 or 0xD800 <= cp <= 0xDFFF for cp in c['xs'][0]):
+        x0 = xs[0]
+        near = ' '.join(x0.split()) if ' '.join(x0.split()) != x0 else x0 + ' '
+        try:
+            cur.execute('INSERT INTO %s (s, n) VALUES (?, ?)' % tbl, (near, -7))
+            nid = cur.lastrowid
+            pre = dump()
+            T.deleteBy(s=x0)
+            post = dump()
+            o['delete_by'] = [sorted(r[0] for r in pre if r[1] == x0), sorted(set(r[0] for r in pre) - set(r[0] for r in post))]
+            if sink is not None:
+                ex = [t for t in sink.executed if t.startswith('DELETE')]
+                want = 'DELETE FROM %s WHERE %s' % (tbl, DBAPI._SO_columnClause(_fake('sqlite'), T, {'s': x0}))
+                o['delete_text'] = [R.cps(want), R.cps(ex[-1]) if ex else None]
+            cur.execute('DELETE FROM %s WHERE id = ?' % tbl, (nid,))
+            ids = [i for i in ids if i in set(r[0] for r in post)]
+        except Exception as e:
+            o['delete_by'] = ['exc', _exc(e)]
     mid = dump()
     o['others_untouched'] = [r for r in mid if r[0] not in ids] == before
     o['rows_mid'] = len(mid)
@@ -607,16 +671,21 @@ def _db(env, c):
         except Exception as e:
             o.setdefault('destroy_exc', []).append(_exc(e))
             cur.execute('DELETE FROM %s WHERE id = ?' % tbl, (i,))
-    raw.commit() if hasattr(raw, 'commit') else None
+    if env['txn']:
+        env['conn'].commit()
+    elif hasattr(raw, 'commit'):
+        raw.commit()
     o['restored'] = dump() == before
     o['sentinel'] = [r for r in before if r[2] == 424242] == [[before[0][0], 'sentinel', 424242, "keep'me"]] if before else False
     return o
 
 
-def _enum(env, c):
+def _enum(env0, c, ci=0):
     from sqlobject import SQLObject, EnumCol
+    env = env0['variants'][c.get('conn') or VARIANTS[ci % len(VARIANTS)]]
     conn, raw = env['conn'], env['raw']
-    env['enum_n'][0] += 1
+    env0['enum_n'][0] += 1
+    env = dict(env, enum_n=env0['enum_n'])
     vals = [R.from_cps(x) for x in c['values']]
     other = R.from_cps(c['other'])
     name = 'VerifC02Enum%d' % env['enum_n'][0]
@@ -654,15 +723,15 @@ def _enum(env, c):
 def run_impl(cases):
     env = _env()
     out = []
-    for c in cases:
+    for ci, c in enumerate(cases):
         try:
             k = c['kind']
             if k == 'value':
                 o = _value(env, c)
             elif k == 'db':
-                o = _db(env, c)
+                o = _db(env, c, ci)
             elif k == 'enum':
-                o = _enum(env, c)
+                o = _enum(env, c, ci)
             else:
                 try:
                     o = _stmt(env, c)
@@ -896,7 +965,20 @@ def oracle(c, o):
                 if not bad:
                     return {'what': 'update raised %s' % u[1]}
             elif u[1] != u[2]:
-                return {'what': 'update stored another text', 'got': u[1], 'expected': u[2]}
+                return {'what': 'update stored another text (connection: %s)' % o.get('variant'),
+                        'got': R.from_cps(u[1]) if u[1] is not None else None, 'expected': R.from_cps(u[2])}
+        for key, verb in (('update_text', 'UPDATE'), ('delete_text', 'DELETE')):
+            t = o.get(key)
+            if t and t[0] != t[1]:
+                return {'what': 'the %s statement handed to the driver is not the statement that was rendered (connection: %s)' % (verb, o.get('variant')),
+                        'rendered': R.from_cps(t[0]), 'executed': None if t[1] is None else R.from_cps(t[1])}
+        db_ = o.get('delete_by')
+        if db_:
+            if db_[0] == 'exc':
+                return {'what': 'deleteBy raised %s (connection: %s)' % (db_[1], o.get('variant'))}
+            if db_[0] != db_[1]:
+                return {'what': 'deleteBy(s=x) deleted other rows than those holding x (connection: %s)' % o.get('variant'),
+                        'x': R.from_cps(c['xs'][0]), 'expected_ids': db_[0], 'deleted_ids': db_[1]}
         if not o['others_untouched'] or o['rows_mid'] != o['expected_rows'] or not o['restored'] or not o['sentinel']:
             return {'what': 'other rows were touched (sentinel / row count)', 'observed': {x: o[x] for x in
                     ('others_untouched', 'rows_mid', 'expected_rows', 'restored', 'sentinel')}}
